@@ -20,7 +20,7 @@ _counter = itertools.count(1)
 
 
 class B:
-    __slots__ = ("kind", "args", "id", "payload", "grp", "_z", "__weakref__")
+    __slots__ = ("kind", "args", "id", "payload", "grp", "_z", "sz", "defn", "gset", "__weakref__")
 
     def __init__(self, kind, args=(), payload=None, grp=None):
         self.kind = kind  # 'T','F','v','n','a','o'
@@ -29,6 +29,16 @@ class B:
         self.grp = grp
         self.id = next(_counter)
         self._z = None
+        sz = 1
+        for a in args:
+            sz += a.sz
+        self.sz = sz if sz < 100000 else 100000
+        self.defn = None  # for definitional variables: the formula they name
+        self.gset = None  # for disjunctions of positive members of one one-hot group: (group, frozenset(ids))
+        if kind == "o":
+            g0 = args[0].grp if args[0].kind == "v" else None
+            if g0 is not None and all(a.kind == "v" and a.grp == g0 for a in args):
+                self.gset = (g0, frozenset(a.id for a in args))
 
     def __repr__(self):
         return show(self)
@@ -164,6 +174,32 @@ def AND(*xs) -> B:
                 if t.id in items:
                     drop.append(x.id)
                     break
+    # disjunctions over one one-hot group: intersect them with each other and with a positive member
+    gsets = None
+    for x in items.values():
+        if x.kind == "o" and x.gset is not None:
+            if gsets is None:
+                gsets = {}
+            gsets.setdefault(x.gset[0], []).append(x)
+    if gsets:
+        for grp, ors in gsets.items():
+            pos = groups.get(grp)
+            if pos is not None:
+                for o in ors:
+                    if pos.id not in o.gset[1]:
+                        return FALSE
+                    if o.id not in drop:
+                        drop.append(o.id)
+            elif len(ors) > 1:
+                common = ors[0].gset[1]
+                for o in ors[1:]:
+                    common = common & o.gset[1]
+                if not common:
+                    return FALSE
+                for o in ors:
+                    drop.append(o.id)
+                members = [a for a in ors[0].args if a.id in common]
+                add.append(members[0] if len(members) == 1 else _mk("o", members))
     if drop or add:
         for d in drop:
             items.pop(d, None)
@@ -204,7 +240,7 @@ def OR(*xs) -> B:
             return TRUE
     # absorption and diamond merge among conjunctions
     lst = list(items.values())
-    changed = True
+    changed = len(lst) <= 10
     while changed and len(lst) > 1:
         changed = False
         n = len(lst)
